@@ -77,6 +77,25 @@ pub unsafe fn interleaved<X: Digest, Y: Digest>(m1: *const u8, l1: usize, c: usi
     put(out1, &a.finalize());
     put(out2.add(256), &d.finalize());
 }
+
+/// C08: an instance in an ARBITRARY state (set through the cfg(cryptocorrosion_verif) hooks) that is reset must behave exactly
+/// like a new one: out1 via Reset::reset, out2 via Digest::finalize_reset (finalises a clone), out3 via the in-place
+/// FixedOutput::finalize_fixed_reset; each then hashes msg.
+#[inline(always)]
+pub unsafe fn reset_from<D: Digest + digest::FixedOutput + digest::Reset + Clone>(d: D, msg: *const u8, len: usize, out1: *mut u8, out2: *mut u8, out3: *mut u8) {
+    let mut a = d.clone();
+    Digest::reset(&mut a);
+    Digest::update(&mut a, sl(msg, len));
+    put(out1, &Digest::finalize(a));
+    let mut b = d.clone();
+    let _ = Digest::finalize_reset(&mut b);
+    Digest::update(&mut b, sl(msg, len));
+    put(out2, &Digest::finalize(b));
+    let mut c = d;
+    let _ = digest::FixedOutput::finalize_fixed_reset(&mut c);
+    Digest::update(&mut c, sl(msg, len));
+    put(out3, &Digest::finalize(c));
+}
 macro_rules! pair_entries {
     ($modname:ident, $name:ident, $x:ty, $y:ty) => {
         pub mod $modname {
@@ -112,7 +131,7 @@ hash_entries!(b512, Blake512, h_blake512, h_blake512_split, h_blake512_clone, h_
 
 /// one step from an arbitrary (chaining value, counter) with p bytes already buffered (hook: verif_set_state)
 macro_rules! blake_step {
-    ($modname:ident, $name:ident, $t:ty, $word:ty, $wb:expr) => {
+    ($modname:ident, $name:ident, $rname:ident, $t:ty, $word:ty, $wb:expr) => {
         pub mod $modname {
             use super::*;
             entries! {
@@ -129,20 +148,38 @@ macro_rules! blake_step {
                     d.update(sl(msg, len));
                     put(out as *mut u8, &d.finalize());
                 }
+                fn $rname(h: *const [u8; 8 * $wb], t0: u64, t1: u64, prefill: *const u8, p: usize, msg: *const u8, len: usize, out1: *mut [u8; 512], out2: *mut [u8; 512], out3: *mut [u8; 512]) {
+                    let mut d = <$t>::default();
+                    d.update(sl(prefill, p));
+                    let mut hw = [0 as $word; 8];
+                    for i in 0..8 {
+                        let mut b = [0u8; $wb];
+                        b.copy_from_slice(&(&*h)[$wb * i..$wb * i + $wb]);
+                        hw[i] = <$word>::from_le_bytes(b);
+                    }
+                    d.verif_set_state(hw, (t0 as $word, t1 as $word));
+                    reset_from(d, msg, len, out1 as *mut u8, out2 as *mut u8, out3 as *mut u8);
+                }
             }
         }
     };
 }
-blake_step!(bs224, h_blake224_step, Blake224, u32, 4);
-blake_step!(bs256, h_blake256_step, Blake256, u32, 4);
-blake_step!(bs384, h_blake384_step, Blake384, u64, 8);
-blake_step!(bs512, h_blake512_step, Blake512, u64, 8);
+blake_step!(bs224, h_blake224_step, h_blake224_rst, Blake224, u32, 4);
+blake_step!(bs256, h_blake256_step, h_blake256_rst, Blake256, u32, 4);
+blake_step!(bs384, h_blake384_step, h_blake384_rst, Blake384, u64, 8);
+blake_step!(bs512, h_blake512_step, h_blake512_rst, Blake512, u64, 8);
 
 macro_rules! skein_step {
-    ($modname:ident, $name:ident, $t:ty, $nb:expr) => {
+    ($modname:ident, $name:ident, $rname:ident, $t:ty, $nb:expr) => {
         pub mod $modname {
             use super::*;
             entries! {
+                fn $rname(x: *const [u8; $nb], t0: u64, t1: u64, prefill: *const u8, p: usize, msg: *const u8, len: usize, out1: *mut [u8; 512], out2: *mut [u8; 512], out3: *mut [u8; 512]) {
+                    let mut d = <$t>::default();
+                    d.update(sl(prefill, p));
+                    d.verif_set_state(digest::generic_array::GenericArray::from_slice(&*x), t0, t1);
+                    reset_from(d, msg, len, out1 as *mut u8, out2 as *mut u8, out3 as *mut u8);
+                }
                 fn $name(x: *const [u8; $nb], t0: u64, t1: u64, prefill: *const u8, p: usize, msg: *const u8, len: usize, out: *mut [u8; 512]) {
                     let mut d = <$t>::default();
                     d.update(sl(prefill, p));
@@ -154,9 +191,9 @@ macro_rules! skein_step {
         }
     };
 }
-skein_step!(ss256, h_skein256_32_step, Skein256<U32>, 32);
-skein_step!(ss512, h_skein512_64_step, Skein512<U64>, 64);
-skein_step!(ss1024, h_skein1024_128_step, Skein1024<U128>, 128);
+skein_step!(ss256, h_skein256_32_step, h_skein256_32_rst, Skein256<U32>, 32);
+skein_step!(ss512, h_skein512_64_step, h_skein512_64_rst, Skein512<U64>, 64);
+skein_step!(ss1024, h_skein1024_128_step, h_skein1024_128_rst, Skein1024<U128>, 128);
 
 use digest::generic_array::typenum::{U1, U100, U128, U129, U16, U200, U257, U31, U32, U33, U64, U65, U7, U8};
 use skein_hash::{Skein1024, Skein256, Skein512};
@@ -219,10 +256,23 @@ pub mod x86 {
     hash_entries!(j384, Jh384, h_jh384, h_jh384_split, h_jh384_clone, h_jh384_reuse);
     hash_entries!(j512, Jh512, h_jh512, h_jh512_split, h_jh512_clone, h_jh512_reuse);
     macro_rules! groestl_step {
-        ($modname:ident, $name:ident, $t:ty, $nb:expr, $inner:expr) => {
+        ($modname:ident, $name:ident, $rname:ident, $t:ty, $nb:expr, $inner:expr) => {
             pub mod $modname {
                 use super::*;
                 entries! {
+                    fn $rname(cv: *const [u8; $nb], counter: u64, prefill: *const u8, p: usize, msg: *const u8, len: usize, out1: *mut [u8; 512], out2: *mut [u8; 512], out3: *mut [u8; 512]) {
+                        let mut d = <$t>::default();
+                        d.update(sl(prefill, p));
+                        let mut w = [0u64; $nb / 8];
+                        for i in 0..$nb / 8 {
+                            let mut b = [0u8; 8];
+                            b.copy_from_slice(&(&*cv)[8 * i..8 * i + 8]);
+                            w[i] = u64::from_le_bytes(b);
+                        }
+                        let f: fn(&mut $t, [u64; $nb / 8], u64) = $inner;
+                        f(&mut d, w, counter);
+                        reset_from(d, msg, len, out1 as *mut u8, out2 as *mut u8, out3 as *mut u8);
+                    }
                     fn $name(cv: *const [u8; $nb], counter: u64, prefill: *const u8, p: usize, msg: *const u8, len: usize, out: *mut [u8; 512]) {
                         let mut d = <$t>::default();
                         d.update(sl(prefill, p));
@@ -241,15 +291,21 @@ pub mod x86 {
             }
         };
     }
-    groestl_step!(gs224, h_groestl224_step, Groestl224, 64, |d, w, c| d.verif_inner().verif_set_state(w, c));
-    groestl_step!(gs256, h_groestl256_step, Groestl256, 64, |d, w, c| d.verif_set_state(w, c));
-    groestl_step!(gs384, h_groestl384_step, Groestl384, 128, |d, w, c| d.verif_inner().verif_set_state(w, c));
-    groestl_step!(gs512, h_groestl512_step, Groestl512, 128, |d, w, c| d.verif_set_state(w, c));
+    groestl_step!(gs224, h_groestl224_step, h_groestl224_rst, Groestl224, 64, |d, w, c| d.verif_inner().verif_set_state(w, c));
+    groestl_step!(gs256, h_groestl256_step, h_groestl256_rst, Groestl256, 64, |d, w, c| d.verif_set_state(w, c));
+    groestl_step!(gs384, h_groestl384_step, h_groestl384_rst, Groestl384, 128, |d, w, c| d.verif_inner().verif_set_state(w, c));
+    groestl_step!(gs512, h_groestl512_step, h_groestl512_rst, Groestl512, 128, |d, w, c| d.verif_set_state(w, c));
     macro_rules! jh_step {
-        ($modname:ident, $name:ident, $t:ty) => {
+        ($modname:ident, $name:ident, $rname:ident, $t:ty) => {
             pub mod $modname {
                 use super::*;
                 entries! {
+                    fn $rname(state: *const [u8; 128], datalen: usize, prefill: *const u8, p: usize, msg: *const u8, len: usize, out1: *mut [u8; 512], out2: *mut [u8; 512], out3: *mut [u8; 512]) {
+                        let mut d = <$t>::default();
+                        d.update(sl(prefill, p));
+                        d.verif_set_state(*state, datalen);
+                        reset_from(d, msg, len, out1 as *mut u8, out2 as *mut u8, out3 as *mut u8);
+                    }
                     fn $name(state: *const [u8; 128], datalen: usize, prefill: *const u8, p: usize, msg: *const u8, len: usize, out: *mut [u8; 512]) {
                         let mut d = <$t>::default();
                         d.update(sl(prefill, p));
@@ -308,10 +364,10 @@ pub mod x86 {
             }
         }
     }
-    jh_step!(js224, h_jh224_step, Jh224);
-    jh_step!(js256, h_jh256_step, Jh256);
-    jh_step!(js384, h_jh384_step, Jh384);
-    jh_step!(js512, h_jh512_step, Jh512);
+    jh_step!(js224, h_jh224_step, h_jh224_rst, Jh224);
+    jh_step!(js256, h_jh256_step, h_jh256_rst, Jh256);
+    jh_step!(js384, h_jh384_step, h_jh384_rst, Jh384);
+    jh_step!(js512, h_jh512_step, h_jh512_rst, Jh512);
     pub fn dispatch(name: &str, args: &[String]) -> Option<Vec<String>> {
         gs224::dispatch(name, args).or_else(|| gs256::dispatch(name, args)).or_else(|| gs384::dispatch(name, args)).or_else(|| gs512::dispatch(name, args))
             .or_else(|| jhcore::dispatch(name, args)).or_else(|| js224::dispatch(name, args)).or_else(|| js256::dispatch(name, args)).or_else(|| js384::dispatch(name, args)).or_else(|| js512::dispatch(name, args))
